@@ -1,0 +1,25 @@
+//go:build verif
+
+// Contracts for the deductive verifier in /verif (comment-only; compiled only with -tags verif).
+
+package storage
+
+// C14 / C15: which chain store an instance gets. The Trillian back end needs none; the CTFE back end
+// gets the SQL store its connection string names (MySQL or PostgreSQL by prefix) and anything else is
+// refused, so that an accepted configuration never runs without the store it selected.
+//@ func NewIssuanceChainStorage
+//@ props C14 C15
+//@ modifies nothing
+//@ frame-trusted the constructors it calls open a connection or allocate a cache; nothing the caller can see is written
+//@ site mysql.NewIssuanceChainStorage#1 as my
+//@ site postgresql.NewIssuanceChainStorage#1 as pg
+//@ site strings.HasPrefix#1 as hm
+//@ site strings.HasPrefix#2 as hp
+//@ ensures [trillian-back-end-needs-no-store] backend == configpb.LogConfig_ISSUANCE_CHAIN_STORAGE_BACKEND_TRILLIAN_GRPC ==> result0 == nil && result1 == nil && !my.called && !pg.called
+//@ ensures [ctfe-back-end-gets-the-store-its-connection-string-names] backend == configpb.LogConfig_ISSUANCE_CHAIN_STORAGE_BACKEND_CTFE && hm.res ==> my.called && result1 == nil && typeof(result0) == *mysql.IssuanceChainStorage && as(result0, *mysql.IssuanceChainStorage) == my.res
+//@ ensures [postgres-when-not-mysql] backend == configpb.LogConfig_ISSUANCE_CHAIN_STORAGE_BACKEND_CTFE && !hm.res && hp.res ==> pg.called && result1 == nil && typeof(result0) == *postgresql.IssuanceChainStorage && as(result0, *postgresql.IssuanceChainStorage) == pg.res
+//@ ensures [any-other-driver-or-back-end-is-refused] (backend == configpb.LogConfig_ISSUANCE_CHAIN_STORAGE_BACKEND_CTFE && !hm.res && !hp.res) || (backend != configpb.LogConfig_ISSUANCE_CHAIN_STORAGE_BACKEND_CTFE && backend != configpb.LogConfig_ISSUANCE_CHAIN_STORAGE_BACKEND_TRILLIAN_GRPC) ==> result0 == nil && result1 != nil
+//@ at hm assert [mysql-prefix-of-the-connection-string] hm.s == dbConn && hm.prefix == "mysql"
+//@ at hp assert [postgres-prefix-of-the-connection-string] hp.s == dbConn && hp.prefix == "postgres"
+//@ at my assert [opened-with-the-connection-string] my.dbConn == dbConn
+//@ at pg assert [opened-with-the-connection-string] pg.dbConn == dbConn
